@@ -126,6 +126,42 @@ pub fn run_bulk(job: &crate::Job, raw: &str) -> Value {
                     Err(_) => json!({"outcome": "err", "items": []}),
                 }
             }
+            // collections of zero-sized elements: HashSet<()> / HashMap<(), ()> (entries [0, 0] each stand for one `null`)
+            "serde_zset" => {
+                let doc = if b.doc.is_empty() { format!("[{}]", vec!["null"; b.entries.len()].join(",")) } else { b.doc.clone() };
+                match serde_json::from_str::<HashSet<(), H>>(&doc) {
+                    Ok(s) => {
+                        let g = s.guard();
+                        let c = s.iter(&g).count();
+                        let back = serde_json::to_string(&s).unwrap_or_default();
+                        let again = serde_json::from_str::<HashSet<(), H>>(&back).map(|t| t.len()).unwrap_or(usize::MAX);
+                        json!({"outcome": if again == s.len() { "ok" } else { "mismatch" }, "items": vec![json!([0, 1]); c], "len": s.len()})
+                    }
+                    Err(_) => json!({"outcome": "err", "items": []}),
+                }
+            }
+            "serde_zmap" => {
+                let doc = if b.doc.is_empty() { "{}".to_string() } else { b.doc.clone() };
+                match serde_json::from_str::<HashMap<(), (), H>>(&doc) {
+                    Ok(m) => json!({"outcome": "ok", "items": vec![json!([0, 0]); m.len()], "len": m.len()}),
+                    Err(_) => json!({"outcome": "err", "items": []}),
+                }
+            }
+            // the same documents through serde_json::Value, whose accessors report exact size hints
+            "value_map" => {
+                let doc = if b.doc.is_empty() { doc_map(&b.entries) } else { b.doc.clone() };
+                match serde_json::from_str::<Value>(&doc).and_then(serde_json::from_value::<HashMap<u32, i64, H>>) {
+                    Ok(m) => json!({"outcome": "ok", "items": map_items(&m)}),
+                    Err(_) => json!({"outcome": "err", "items": []}),
+                }
+            }
+            "value_set" => {
+                let doc = if b.doc.is_empty() { doc_set(&b.entries) } else { b.doc.clone() };
+                match serde_json::from_str::<Value>(&doc).and_then(serde_json::from_value::<HashSet<u32, H>>) {
+                    Ok(s) => json!({"outcome": "ok", "items": set_items(&s)}),
+                    Err(_) => json!({"outcome": "err", "items": []}),
+                }
+            }
             "roundtrip_map" => {
                 let m: HashMap<u32, i64, H> = HashMap::with_hasher(H::default());
                 {
